@@ -4,6 +4,6 @@ tier=${1:-quick}; shift
 cd "$(dirname "$0")/.."
 ids="$@"; [ -z "$ids" ] && ids=$(python3 -c "import json;print(' '.join(c['property_id'] for c in json.load(open('MANIFEST.json'))['checks']))")
 for p in $ids; do
-  s=$(date +%s); tools/check $p $tier > /tmp/runall.$tier.$p.out 2>&1; rc=$?; e=$(date +%s)
-  echo "$p rc=$rc $((e-s))s $(grep -c '^VIOLATION' /tmp/runall.$tier.$p.out) violations $(grep -m1 'INFRA' /tmp/runall.$tier.$p.out | cut -c1-150)"
+  s=$(date +%s); tools/check $p $tier > ${RUNALL_LOG:-/tmp/runall}.$tier.$p.out 2>&1; rc=$?; e=$(date +%s)
+  echo "$p rc=$rc $((e-s))s $(grep -c '^VIOLATION' ${RUNALL_LOG:-/tmp/runall}.$tier.$p.out) violations $(grep -m1 'INFRA' ${RUNALL_LOG:-/tmp/runall}.$tier.$p.out | cut -c1-150)"
 done
